@@ -422,10 +422,20 @@ func (d *Def) getChainMethodReturnType(
 	evaluatedT base.T,
 ) base.T {
 
+	// identifiers already followed: a = b; b = c; c = a never resolves, the
+	// chain has to stop when it comes back to a name it has seen
+	visited := map[string]bool{}
+
 	for {
 		if !evaluatedT.IsIdentifierType() {
 			break
 		}
+
+		if visited[evaluatedT.ToString()] {
+			break
+		}
+
+		visited[evaluatedT.ToString()] = true
 
 		e.Eval(p, ctx, &evaluatedT)
 
